@@ -1,7 +1,9 @@
-/- Driver ops for RobotWarehouse: robot_warehouse.{state,step,judge,instance} -/
+/- Driver ops for RobotWarehouse: robot_warehouse.{state,step,judge,instance,bounds,spec} -/
 import JumanjiModel.Bridge.Json
 import JumanjiModel.Env.RobotWarehouse.Model
 import JumanjiModel.Env.RobotWarehouse.Bounds
+import JumanjiModel.Env.RobotWarehouse.SpecValid
+import JumanjiModel.Bridge.Spec
 open Lean Jb
 
 namespace Jb.RobotWarehouse
@@ -61,6 +63,8 @@ def getObs (j : Json) : Except String Obs := do
   pure { view := ← fIntGrid j "agents_view", mask := ← fBoolGrid j "action_mask",
          stepCount := ← fInt j "step_count" }
 
+def jNValue (v : Sp.NValue) : Json := jList (fun (e : String × Sp.Arr) => jObj [("key", jStr e.1), ("value", SpecOps.jArr e.2)]) v
+
 /-- shape requirements without which the model would silently default -/
 def checkShape (cfg : Cfg) (s : State) : Except String Unit := do
   let rows := gRows s.shelfGrid
@@ -76,7 +80,16 @@ def opState : Op := fun j => do
   let s ← getState (← field j "state")
   checkShape cfg s
   let cons := decide (Consistent cfg s)
-  pure (jObj [("mask", jBools (computeMask s.shelfGrid s.agents).flatten),
+  -- wave 4 (C01), when the configuration carries the generator's `num_agents`: the timestep the model's `reset` builds on top of
+  -- this state, the model observation as spec-level arrays (`toNValue`), its membership in the model's `obsSpec cfg A`, and the
+  -- invariant of `robot_warehouse_step_obs_valid`
+  let w4 ← match ← fOpt (← field j "cfg") "num_agents" getNat with
+    | none => pure []
+    | some A => pure [("reset_ts", jTimeStep jObs (resetTs cfg s)),
+                      ("nvalue", jNValue (toNValue (resetObs cfg s))),
+                      ("obs_in_spec", jBool ((obsSpec cfg A).valid (toNValue (resetObs cfg s)))),
+                      ("spec_inv", jBool (decide (SpecInv A s)))]
+  pure (jObj ([("mask", jBools (computeMask s.shelfGrid s.agents).flatten),
               ("cached_mask", jBools s.mask.flatten),
               ("legal", jBools (legalMask s).flatten),
               ("obs", jObs (observe cfg s)),
@@ -84,7 +97,7 @@ def opState : Op := fun j => do
               ("consistent", jBool cons),
               ("sig", jObj [("obs", jObj [("state", jStr (if cons then "consistent"
                   else if (collisions s.world).any id then "collision" else "inconsistent"))]),
-                            ("consistent", jObj [])])])
+                            ("consistent", jObj [])])] ++ w4))
 
 def opStep : Op := fun j => do
   let cfg ← getCfg (← field j "cfg")
@@ -153,7 +166,21 @@ def opInstance : Op := fun j => do
               ("draw_in_support", jBool (validSpawn na q cfg.highways d)),
               ("generator_matches", jBool (decide (generate cfg d = s))),
               ("layout_matches", jBool (decide (cfg.highways = l.highways) && decide (cfg.goals = l.goals) &&
-                  decide (rows = l.rows) && decide (cols = l.cols)))])
+                  decide (rows = l.rows) && decide (cols = l.cols))),
+              -- wave 4 (C01): the invariant behind `robot_warehouse_step_obs_valid` and membership of the reset observation in the
+              -- symbolic `obsSpec cfg num_agents`, on the implementation's reset state
+              ("spec_inv", jBool (decide (SpecInv na s))),
+              ("reset_obs_in_spec", jBool ((obsSpec cfg na).valid (toNValue (resetTs cfg s).obs)))])
+
+/-- {cfg (with num_agents)} → the model's `obsSpec cfg A`, `actionSpec A`, reward and discount spec in the `speclib.leaf_json`
+layout -/
+def opSpec : Op := fun j => do
+  let c ← field j "cfg"
+  let cfg ← getCfg c
+  let A ← fNat c "num_agents"
+  pure (jObj [("observation_spec", SpecOps.jNested (obsSpec cfg A)), ("action_spec", SpecOps.jLeaf (actionSpec A)),
+              ("reward_spec", SpecOps.jLeaf PzS.rewardSpec), ("discount_spec", SpecOps.jLeaf PzS.discountSpec),
+              ("action_spec_wf", jBool (actionSpec A).WF), ("generate_value", SpecOps.jArr (actionSpec A).generate)])
 
 /-- C01: {cfg} → {leaf path: {"lo": rat|null, "hi": rat|null}} = `obsBounds cfg` (the intervals of
 `Props.C01.robot_warehouse_step_obs_in_bounds`) -/
@@ -168,5 +195,5 @@ def opBounds : Op := fun j => do
 def ops : List (String × Op) :=
   [("robot_warehouse.state", opState), ("robot_warehouse.step", opStep),
    ("robot_warehouse.judge", opJudge), ("robot_warehouse.instance", opInstance),
-   ("robot_warehouse.bounds", opBounds)]
+   ("robot_warehouse.bounds", opBounds), ("robot_warehouse.spec", opSpec)]
 end Jb.RobotWarehouse
